@@ -102,13 +102,19 @@ def flatten (layers : List FSLayer) : List (String × String) :=
 
 /-- The scanners, abstractly.  `osDbs`: paths of the OS package databases (one linux
     ecosystem each: dpkg's `var/lib/dpkg/status`, apk's `lib/apk/db/installed`, …);
+    `rhelDbs`: the same for ecosystems coalesced by `rhel.Coalescer`;
     `scanDB d content`: the packages an OS database scanner reads out of the file;
     `scanFile path content`: what the language scanners make of one regular file
     (python METADATA, package.json, gemspec, jar). -/
 structure Scanners where
   osDbs : List String
+  /-- databases of an ecosystem that uses `rhel.Coalescer` (rpm on RHEL), one ecosystem each -/
+  rhelDbs : List String := []
   scanDB : String → String → List Pkg
   scanFile : String → String → Option Pkg
+
+/-- every OS package database path -/
+def Scanners.allDbs (S : Scanners) : List String := S.osDbs ++ S.rhelDbs
 
 /-- OS packages carry the database path and no file path. -/
 def osPkgsOf (S : Scanners) (d c : String) : List Pkg := (S.scanDB d c).map fun p => { p with db := d, fp := "" }
@@ -136,7 +142,8 @@ def whArts (l : FSLayer) : Layer :=
 
 /-- the per-ecosystem artifact lists, packed per manifest layer as `controller.coalesce` does -/
 def ecosOf (S : Scanners) (layers : List FSLayer) : List (Kind × List Layer) :=
-  (S.osDbs.map fun d => (Kind.linux, layers.map (osArts S d))) ++
+  ((S.osDbs.map fun d => (Kind.linux, layers.map (osArts S d))) ++
+   (S.rhelDbs.map fun d => (Kind.rhel, layers.map (osArts S d)))) ++
     [(Kind.lang, layers.map (langArts S)), (Kind.wh, layers.map whArts)]
 
 /-- `Index` on a layer stack: every layer scanned in isolation, then coalesce, MergeSR, resolve -/
@@ -145,7 +152,7 @@ def indexModel (S : Scanners) (layers : List FSLayer) : Option Report :=
 
 /-- the same scanners on the single flattened file system -/
 def scanImage (S : Scanners) (layers : List FSLayer) : List Pkg :=
-  (S.osDbs.flatMap fun d => match present layers d with | some c => osPkgsOf S d c | none => []) ++
+  (S.allDbs.flatMap fun d => match present layers d with | some c => osPkgsOf S d c | none => []) ++
     (flatten layers).filterMap fun qc => langPkgAt S qc.1 qc.2
 
 /-! ### the (decidable) hypothesis of the composition theorem, executable
@@ -159,11 +166,11 @@ def tameB (S : Scanners) (layers : List FSLayer) : Bool :=
   decide (∀ l ∈ layers, (whiteoutsOf l).length ≤ 1 ∧ whiteoutsOf l = whiteoutFiles l) &&
   decide (∀ l ∈ layers, ∀ w ∈ whiteoutsOf l, ¬ (base w = opqName ∧ dir w = ".")) &&
   decide (∀ l ∈ layers, ∀ l' ∈ layers, ∀ p ∈ langPkgs S l', hides l p.fp = (whiteoutFiles l).any fun w => covers w p.fp) &&
-  decide (∀ d ∈ S.osDbs, ∀ l ∈ layers, hides l d = false ∧ ∀ c ∈ fileOf l d, S.scanDB d c ≠ []) &&
+  decide (∀ d ∈ S.allDbs, ∀ l ∈ layers, hides l d = false ∧ ∀ c ∈ fileOf l d, S.scanDB d c ≠ []) &&
   decide (layers.Pairwise fun l l' => ∀ e ∈ l.entries, ∀ c ∈ fileOf l e.1, ∀ p ∈ S.scanFile e.1 c,
       ∀ c' ∈ fileOf l' e.1, (∃ p' ∈ S.scanFile e.1 c', p'.id = p.id) ∨ hides l' e.1 = true) &&
   decide (∀ l ∈ layers, ∀ l' ∈ layers, ∀ p ∈ langPkgs S l, ∀ p' ∈ langPkgs S l', p.id = p'.id → p.fp = p'.fp) &&
-  decide (∀ d ∈ S.osDbs, ∀ l ∈ layers, ∀ c ∈ fileOf l d, ∀ p ∈ S.scanDB d c,
+  decide (∀ d ∈ S.allDbs, ∀ l ∈ layers, ∀ c ∈ fileOf l d, ∀ p ∈ S.scanDB d c,
       ∀ l' ∈ layers, ∀ p' ∈ langPkgs S l', p.id ≠ p'.id)
 
 /-! ### line protocol: `flat layer|layer|…`, layer = `-` or `path:d,path:cN,…` -/
